@@ -206,7 +206,8 @@ def run_bell(report, tier, seed, fmts=("f64", "f32"), timeout=None, classes=None
     if _skip(report, "bell"):
         return []
     mp = C.mir_path("compact", False)
-    timeout = timeout or (20 if tier == "quick" else 60)
+    # a few classes next to the overflow threshold need 40-60 s in cvc5 (single path); everything else ~1 s
+    timeout = timeout or 150
     jobs = []
     for fmt in fmts:
         cl = classes[fmt] if classes else bell_classes(fmt, tier, seed)
